@@ -5,6 +5,7 @@ CONSTANTS
   EraSecs = 64
   Epoch <- EpochScaled
   ForwardOnlyEraUnfold = FALSE
+  WholeSecondUnfold = FALSE
   RefSecs <- RefCls
   RefNs <- RefNsGen
   Offs <- OffAll
